@@ -591,6 +591,26 @@ func run(c *mc.Ctx) {
 			sig := append(append([]byte{}, g.r.enc...), sb...)
 			k.evalCase(w, kind, g.a.enc, g.m, sig, g.va, p.WithS(sb), epk)
 		}
+		// the expanded key has now been used for every S and flag set of the group: it must still behave like a fresh
+		// object holding the same key, and like a copy of itself taken by value
+		if epk != nil && len(ss) > 0 {
+			sig := append(append([]byte{}, g.r.enc...), ss[0]...)
+			f := p.WithS(ss[0])
+			fresh, _ := ed.NewExpandedPublicKey(g.a.enc)
+			cp := *epk
+			for _, fl := range []refed.Flags{refed.PresetZIP215, refed.PresetDefault} {
+				exp, why := f.Verdict(fl)
+				lo := &ed.Options{Hash: g.va.hash, Context: string(g.va.v.Context), Verify: k.opts[fl.Mask()].vo}
+				for name, e := range map[string]*ed.ExpandedPublicKey{"used": epk, "fresh": fresh, "value-copy": &cp} {
+					if e == nil {
+						continue
+					}
+					w.EvalN("expanded-key-reuse/"+whyName(why), 1, f.LenOK && f.SInRange)
+					got, pan := call(func() bool { return ed.VerifyExpandedWithOptions(e, g.m, sig, lo) })
+					k.cmp(w, "VerifyExpandedWithOptions("+name+" key object)", got, pan, exp, why, g.a.enc, g.m, sig, g.va, fl)
+				}
+			}
+		}
 	}
 	c.Par("pairs", len(pairs), func(w *mc.W, i int) {
 		g := &pairs[i]
@@ -940,20 +960,23 @@ func run(c *mc.Ctx) {
 			lg = append(lg, gs[0])
 		}
 	}
-	sigLens := []int{0, 1, 31, 32, 33, 63, 64, 65, 96, 127, 128}
+	var sigLens []int // every signature length 0..130
+	for n := 0; n <= 130; n++ {
+		sigLens = append(sigLens, n)
+	}
 	c.Par("lengths", len(lg)*len(sigLens), func(w *mc.W, i int) {
 		g := &lg[i/len(sigLens)]
 		n := sigLens[i%len(sigLens)]
 		honest := append(append([]byte{}, g.r.enc...), ref.LE32(g.s)...)
-		sig := append(append([]byte{}, honest...), honest...)[:n]
+		sig := append(append(append([]byte{}, honest...), honest...), honest...)[:n]
 		f := refed.Analyse(g.a.enc, g.m, sig, g.va.v)
 		k.evalCase(w, fmt.Sprintf("signature-length-%d", n), g.a.enc, g.m, sig, g.va, f, k.expand(w, g.a.enc))
 	})
 	// Documented panics / never-accept for malformed parameters (library documentation of VerifyWithOptions).
-	c.Seq("malformed-parameters", len(lg), func(w *mc.W, i int) {
+	c.Par("malformed-parameters", len(lg), func(w *mc.W, i int) {
 		g := &lg[i]
 		sig := append(append([]byte{}, g.r.enc...), ref.LE32(g.s)...)
-		epk, _ := ed.NewExpandedPublicKey(g.a.enc)
+		epk := k.expand(w, g.a.enc)
 		mustNotAccept := func(what string, documentedPanic bool, f func() bool) {
 			w.Eval("malformed/"+what, false)
 			got, pan := call(f)
@@ -965,8 +988,11 @@ func run(c *mc.Ctx) {
 			}
 		}
 		base := func() *ed.Options { return &ed.Options{Hash: g.va.hash, Context: string(g.va.v.Context)} }
-		for _, n := range []int{0, 31, 33, 64} {
-			pk := append(append([]byte{}, g.a.enc...), g.a.enc...)[:n]
+		for n := 0; n <= 70; n++ { // every key length but 32
+			if n == 32 {
+				continue
+			}
+			pk := append(append(append([]byte{}, g.a.enc...), g.a.enc...), g.a.enc...)[:n]
 			mustNotAccept(fmt.Sprintf("public-key-length-%d", n), true, func() bool { return ed.VerifyWithOptions(pk, g.m, sig, base()) })
 			w.Eval("malformed/expand-key-length", false)
 			if _, err := ed.NewExpandedPublicKey(pk); err == nil {
